@@ -21,7 +21,7 @@ KindOf(x) == IF IsRaise(x) THEN "raise"
              ELSE "expr"
 RECURSIVE Patterns(_)
 Patterns(p) ==
-    (IF p.t = "bin" THEN { << p.op, KindOf(Build(p.l)), KindOf(Build(p.r)) >> } ELSE {})
+    (IF p.t \in {"bin", "aug"} THEN { << p.op, KindOf(Build(p.l)), KindOf(Build(p.r)) >> } ELSE {})
     \cup UNION { Patterns(PKids(p)[i]) : i \in 1..Len(PKids(p)) }
 SetToSeq(S) == LET RECURSIVE Go(_) Go(T) == IF T = {} THEN << >>
                                             ELSE LET e == CHOOSE e \in T : TRUE IN << e >> \o Go(T \ {e})
